@@ -63,6 +63,9 @@ def gen(rng, k):
     # the first subscriber of the first receiver's Dm1 object sorts / empties what it is handed; the next subscriber of the same
     # object must still get what was sent
     sc['mutating_first'] = rng.random() < 0.35
+    sc['resubscribe'] = rng.random() < 0.3
+    if rng.random() < 0.3 and sc['recv_kinds'][0] == 'normal':
+        sc['recv_sends'] = dict(dtcs=[[rng.getrandbits(19), rng.getrandbits(5), rng.getrandbits(7)]], cycle=rng.choice([60000, 170000, 333000]))
     fam = k % 6
     if fam == 5:
         # a second start_send on the same Dm1 object, other callback, other cycle time: both keep running until their own stop_send
@@ -117,7 +120,16 @@ def runner(sc):
                         dtcs.pop()
                     lamps.clear()
                 dm.subscribe(mutate)
-            dm.subscribe(lambda sa, lamps, dtcs, ts, i=i: got.append((sim.now, i, sa, [lamps[k] for k in KEYS], [[d['spn'], d['fmi'], d['oc']] for d in dtcs])))
+            rec = (lambda sa, lamps, dtcs, ts, i=i: got.append((sim.now, i, sa, [lamps[k] for k in KEYS], [[d['spn'], d['fmi'], d['oc']] for d in dtcs])))
+            if sc.get('resubscribe') and i == 0:
+                # the subscriber was registered, removed again (it was the last one) and registered once more before any traffic
+                dm.subscribe(rec)
+                dm.unsubscribe(rec)
+            dm.subscribe(rec)
+            if sc.get('recv_sends') and i == 0:
+                # the same Dm1 object also sends this node's own DM1 (other content, its own cycle)
+                own = [dict(spn=s_, fmi=f_, oc=o_) for s_, f_, o_ in sc['recv_sends']['dtcs']]
+                sim.at(700, lambda dm=dm, own=own: dm.start_send(lambda: (dict(zip(KEYS, [1, 0, 1, 0])), own), sc['recv_sends']['cycle'] / 1e6))
             recv.append(B)
         dmA = j1939.Dm1(ca)
         calls = []
@@ -169,7 +181,7 @@ def runner(sc):
 
 def g_before_stop(res, sc, i, first):
     """deliveries at receiver i of what the FIRST callback supplied (with a second start_send running as well)"""
-    return sum(1 for g in res.got if g[1] == i and g[4] in first)
+    return sum(1 for g in res.got if g[1] == i and g[2] == 0x20 and g[4] in first)
 
 
 def oracle(sc, res):
@@ -178,7 +190,9 @@ def oracle(sc, res):
     supplied = [e[2] for e in res.events if e[0] in ('call', 'call2')]
     for (t, i, sa, lamps, dtcs) in res.got:
         # every DM1 that arrives is what the callback supplied at ONE of its calls — never a blend of two cycles
-        if sa != 0x20 or lamps != exp_l or dtcs not in supplied:
+        if sa != 0x20:
+            continue        # (a DM1 of another sender on the bus)
+        if lamps != exp_l or dtcs not in supplied:
             v.append(dict(kind='dm1-content-differs', t=t, receiver=i, lamps=lamps, dtcs=dtcs[:3], expected_lamps=exp_l, expected_one_of=[d[:3] for d in supplied[:3]]))
             break
     before = [c for c in res.calls if c < sc['stop']]
@@ -204,6 +218,8 @@ def oracle(sc, res):
     per = {}
     first = [e[2] for e in res.events if e[0] == 'call']
     for g in res.got:
+        if g[2] != 0x20:
+            continue            # a DM1 of another sender on the bus (a receiver that also sends its own)
         if not sc.get('second_start') or g[4] in first:
             per[g[1]] = per.get(g[1], 0) + 1
     for i in range(sc['nrecv']):
